@@ -21,7 +21,8 @@ prop(
          "'severity ladder': 2-3 rule{} blocks configuring the SAME check (same key/options/comment, so the same problem text) at "
          "different severities, split by label value / kind / name / path or overlapping; groups carry 0-8 group-level labels, rules "
          "a `team: <rule name>` label checked against {{ $alert }}) is run 8-9 times: --fail-on in "
-         "{absent, info, warning, bug, fatal} plus repeats at one threshold, each with drawn --min-severity, --show-duplicates, "
+         "{absent, info, warning, bug, fatal} plus repeats at one threshold, each with independently drawn --min-severity, --show-duplicates, report files (--json, --checkstyle, both, neither; runs "
+         "without a JSON of their own are judged against the JSON of another run of the same input), --no-color on/off, -l debug/warn/error, "
          "--workers; `pint ci` cases build a two-commit git repository (base branch + one change commit). "
          "Non-trivial: the run completed linting, its report holds >= 2 distinct severities and at least one severity strictly "
          "below the fail-on threshold. Runs that fail before linting completes (no decodable --json file: bad flag, config "
